@@ -147,6 +147,9 @@ func init() {
 			{Pkg: "rtmp", Func: "HarnessC01_Session", Labels: []string{"session"},
 				Bound:  "1-2 messages (first payload 1-5 symbolic bytes, second 1 or 3), each optionally preceded by WritePacket(SetChunkSize) with the size symbolic in [1, 2^31-1]; messages built by NewStreamMessage or NewMessage; type/stream id/timestamp symbolic",
 				BoundT: "1-3 messages with payloads of 1-10 symbolic bytes; every split offset"},
+			{Pkg: "rtmp", Func: "HarnessC01_Chunked", Labels: []string{"chunked"},
+				Bound:  "one message of 127/128/129/257 bytes (3 symbolic positions, symbolic type/stream id/timestamp) with the default chunk size or an announced one in {1,127,128,129,4096}, followed by a 2-byte message",
+				BoundT: "sizes 127,128,129,255,256,257,4095,4096,4097,65535,65536"},
 			{Pkg: "rtmp", Func: "HarnessC01_Handshake", Labels: []string{"handshake"},
 				Bound: "C0C1/S0S1S2/C2 exchange with fixed pseudo-random bytes, transport chunk in {whole,1,7,1535,1536,1537}, then one message with symbolic fields"},
 		},
